@@ -20,7 +20,10 @@ use lightning::routing::router::{Path, PaymentParameters, Route, RouteHop, Route
 use lightning::sign::NodeSigner;
 use lightning::types::payment::{PaymentHash, PaymentPreimage, PaymentSecret};
 use lightning::util::config::{MaxDustHTLCExposure, UserConfig};
+use lightning::events::bump_transaction::sync::BumpTransactionEventHandlerSync;
 use lightning::util::ser::{LengthReadable, Writeable};
+use lightning::util::test_utils::TestWalletSource;
+use lightning::util::wallet_utils::WalletSync;
 use serde::{Deserialize, Serialize};
 use simcore::runner::catch;
 use simcore::{fnv, fnv_extend, RunOutcome};
@@ -31,6 +34,14 @@ use std::sync::{Arc, Mutex};
 use std::time::Duration;
 
 pub const FINAL_CLTV: u32 = 70;
+
+pub type SimWalletSync = WalletSync<Arc<TestWalletSource>, Arc<SimLogger>>;
+pub type SimBumpHandler = BumpTransactionEventHandlerSync<
+	Arc<SimBroadcaster>,
+	Arc<SimWalletSync>,
+	Arc<SimKeys>,
+	Arc<SimLogger>,
+>;
 
 #[derive(Clone, Copy, Debug, PartialEq, Eq, Serialize, Deserialize)]
 pub enum ChanType {
@@ -125,7 +136,10 @@ pub enum Action {
 	ArmCrash { n: usize, at: u64, after: bool },
 	Restart { n: usize, style: u8 },
 	Abandon { n: usize, pay: usize },
+	Sweep { n: usize },
 	Settle,
+	/// close everything, mine until all monitors have drained, sweep, then the wealth oracle
+	Liquidate,
 }
 
 impl Action {
@@ -154,7 +168,9 @@ impl Action {
 			Action::ArmCrash { .. } => "ArmCrash",
 			Action::Restart { .. } => "Restart",
 			Action::Abandon { .. } => "Abandon",
+			Action::Sweep { .. } => "Sweep",
 			Action::Settle => "Settle",
+			Action::Liquidate => "Liquidate",
 		}
 	}
 	pub fn actor(&self) -> usize {
@@ -176,11 +192,12 @@ impl Action {
 			| Action::Crash { n, .. }
 			| Action::ArmCrash { n, .. }
 			| Action::Restart { n, .. }
+			| Action::Sweep { n }
 			| Action::Abandon { n, .. } => *n,
 			Action::Deliver { to, .. } => *to,
 			Action::Disconnect { a, .. } | Action::Reconnect { a, .. } => *a,
 			Action::Send { from, .. } => *from,
-			Action::Mine { .. } | Action::Settle => 99,
+			Action::Mine { .. } | Action::Settle | Action::Liquidate => 99,
 		}
 	}
 }
@@ -354,6 +371,18 @@ pub struct Node {
 	pub incarnation: u32,
 	/// height of the best block this node's manager was last told about
 	pub synced_height: u32,
+	pub wallet: Arc<TestWalletSource>,
+	pub bump: SimBumpHandler,
+	pub sweeps: Vec<crate::onchain::PendingSweep>,
+	pub unsweepable_sat: u64,
+	pub forward_fees_told_msat: u64,
+	/// channels closed with OutdatedChannelManager in the current incarnation
+	pub outdated_chans: BTreeSet<usize>,
+	/// generation of the manager snapshot each restart loaded
+	pub loaded_gens: Vec<u64>,
+	/// channels that were closed (user force close or peer error) while an asynchronous monitor
+	/// write of that channel was still in flight
+	pub closed_inflight: BTreeSet<usize>,
 }
 
 #[derive(Clone, Debug)]
@@ -398,6 +427,9 @@ pub struct PayEvents {
 	pub sent: Vec<(u64, u32, Option<u64>, u64)>, // (step, incarnation, fee_paid, amount)
 	pub failed: Vec<(u64, u32)>,
 	pub path_failed: Vec<(u64, Option<u64>, bool)>, // (step, scid, permanently)
+	/// manager snapshot generation current when each PaymentSent / PaymentPathFailed was handled
+	pub sent_gen: Vec<u64>,
+	pub path_failed_gen: Vec<u64>,
 	pub claimable: Vec<(u64, u64)>,                 // (step, amount)
 	pub claimed: Vec<(u64, u64)>,
 }
@@ -422,6 +454,14 @@ pub struct Pay {
 	/// the route deliberately violates a forwarding policy (must be failed by the forwarder)
 	pub policy_violating: bool,
 	pub sender_balances_before: Vec<(usize, u64)>,
+	/// after a restart the sender no longer lists the payment (it was sent after the manager
+	/// snapshot the node restarted from): it must have no HTLC in flight and never complete
+	pub forgotten: Option<u64>,
+	/// first manager snapshot generation that can contain this payment
+	pub first_gen: u64,
+	/// the sender restarted from a manager snapshot older than the payment and re-learned it
+	/// from its ChannelMonitors
+	pub rehydrated: bool,
 }
 
 pub struct World {
@@ -534,13 +574,28 @@ impl World {
 			let node_id = keys.get_node_id(lightning::sign::Recipient::Node).unwrap();
 			let disk: Disk = Arc::new(Mutex::new(DiskState::default()));
 			disk.lock().unwrap().async_default = nc.async_default;
+			let logger = Arc::new(SimLogger::new(idx));
+			let broadcaster = Arc::new(SimBroadcaster::new());
+			let mut wsk = [0x77u8; 32];
+			wsk[0] = idx as u8 + 1;
+			wsk[1..9].copy_from_slice(&cfg.node_seed.to_le_bytes());
+			let wallet = Arc::new(TestWalletSource::new(
+				bitcoin::secp256k1::SecretKey::from_slice(&wsk).expect("wallet key"),
+			));
+			let wallet_sync = Arc::new(WalletSync::new(Arc::clone(&wallet), Arc::clone(&logger)));
+			let bump = BumpTransactionEventHandlerSync::new(
+				Arc::clone(&broadcaster),
+				wallet_sync,
+				Arc::clone(&keys),
+				Arc::clone(&logger),
+			);
 			let mut node = Node {
 				idx,
 				cfg: nc.clone(),
 				keys,
-				logger: Arc::new(SimLogger::new(idx)),
+				logger,
 				fee: Arc::new(SimFee::new()),
-				broadcaster: Arc::new(SimBroadcaster::new()),
+				broadcaster,
 				filter: Arc::new(SimFilter::new()),
 				router: Arc::new(SimRouter),
 				disk,
@@ -553,6 +608,14 @@ impl World {
 				persist_cursor: 0,
 				incarnation: 0,
 				synced_height: 0,
+				wallet,
+				bump,
+				sweeps: Vec::new(),
+				unsweepable_sat: 0,
+				forward_fees_told_msat: 0,
+				outdated_chans: BTreeSet::new(),
+				loaded_gens: Vec::new(),
+				closed_inflight: BTreeSet::new(),
 			};
 			node.live = Some(build_live(&node, None).expect("fresh node"));
 			nodes.push(node);
@@ -694,6 +757,10 @@ impl World {
 			for n in 0..self.nodes.len() {
 				progress |= self.do_drain(n);
 				self.complete_all_monitor_writes(n);
+				if self.nodes[n].cfg.deferred {
+					self.do_persist_mgr(n);
+					progress |= self.complete_all_monitor_writes(n);
+				}
 			}
 			if !progress || self.dead {
 				break;
@@ -705,6 +772,7 @@ impl World {
 		simcore_set_now(self.clock);
 		// initial chain so that heights are not tiny
 		self.chain.mine_empty(10);
+		self.seed_wallets();
 		let specs = self.cfg.chans.clone();
 		let mut pairs = BTreeSet::new();
 		for s in specs.iter() {
@@ -1037,6 +1105,11 @@ impl World {
 		self.note(&format!("deliver {}->{} {}", from, to, m2.kind()));
 		self.out.bump(&format!("msg:{}", m2.kind()));
 		self.observe_deliver(from, to, &m2);
+		if let WireMsg::Error(e) = &m2 {
+			if let Some(c) = self.chan_by_id(&e.channel_id) {
+				self.note_close_with_inflight(to, c);
+			}
+		}
 		let src = self.nodes[from].node_id;
 		let res = catch(|| match &m2 {
 			WireMsg::OpenChannel(x) => mgr.handle_open_channel(src, x),
@@ -1222,6 +1295,8 @@ impl World {
 			Event::PaymentSent { payment_id, payment_preimage, payment_hash, fee_paid_msat, amount_msat, .. } => {
 				let pi = payment_id.and_then(|id| self.pay_by_id(&id)).or_else(|| self.pay_by_hash(&payment_hash));
 				if let Some(pi) = pi {
+					let g = self.nodes[n].disk.lock().unwrap().manager_generation;
+					self.pays[pi].ev.sent_gen.push(g);
 					self.pays[pi].ev.sent.push((step, inc, fee_paid_msat, amount_msat.unwrap_or(0)));
 					self.oracle_on_sent(n, pi, payment_preimage, payment_hash, fee_paid_msat, amount_msat);
 				} else {
@@ -1240,8 +1315,13 @@ impl World {
 			},
 			Event::PaymentPathFailed { payment_id, short_channel_id, payment_failed_permanently, .. } => {
 				if let Some(pi) = payment_id.and_then(|id| self.pay_by_id(&id)) {
+					let g = self.nodes[n].disk.lock().unwrap().manager_generation;
+					self.pays[pi].ev.path_failed_gen.push(g);
 					self.pays[pi].ev.path_failed.push((step, short_channel_id, payment_failed_permanently));
 				}
+			},
+			Event::PaymentForwarded { total_fee_earned_msat, .. } => {
+				self.nodes[n].forward_fees_told_msat += total_fee_earned_msat.unwrap_or(0);
 			},
 			Event::ChannelClosed { channel_id, reason, .. } => {
 				self.on_channel_closed(n, channel_id, format!("{:?}", reason));
@@ -1259,6 +1339,12 @@ impl World {
 		let short = reason.split(|c: char| !c.is_alphanumeric()).next().unwrap_or("").to_string();
 		self.out.bump(&format!("closure:{}", short));
 		let coop = short.contains("CooperativeClosure");
+		if short == "OutdatedChannelManager" {
+			if let Some(c) = ci {
+				self.nodes[n].outdated_chans.insert(c);
+			}
+			self.out.bump("probe:channel_closed_outdated_manager");
+		}
 		if reason.contains("closing_signed negotiation failed to finish within two timer ticks") {
 			// see on_error_emitted: documented protective timeout, treated as requested
 			if let Some(c) = ci {
@@ -1481,6 +1567,9 @@ impl World {
 			ev: PayEvents::default(),
 			policy_violating: fee_delta < 0 || cltv_adj < 0,
 			sender_balances_before: balances_before,
+			forgotten: None,
+			first_gen: self.nodes[from].disk.lock().unwrap().manager_generation + 1,
+			rehydrated: false,
 		});
 		self.note(&format!("send pay {} {}->{} total {} accepted {}", idx, from, to, total, pending));
 		self.out.bump(if pending { "probe:send_accepted" } else { "probe:send_refused" });
@@ -1568,6 +1657,22 @@ impl World {
 		true
 	}
 
+	pub fn note_close_with_inflight(&mut self, n: usize, chan: usize) {
+		let key = self.chans[chan].channel_id.0;
+		let inflight = {
+			let d = self.nodes[n].disk.lock().unwrap();
+			d.chans.get(&key).map(|c| !c.completions.is_empty()).unwrap_or(false)
+		};
+		let open = self
+			.mgr(n)
+			.map(|m| m.list_channels().iter().any(|d| d.channel_id.0 == key))
+			.unwrap_or(false);
+		if inflight && open {
+			self.nodes[n].closed_inflight.insert(chan);
+			self.out.bump("probe:channel_closed_with_monitor_update_in_flight");
+		}
+	}
+
 	pub fn do_force_close(&mut self, n: usize, chan: usize) -> bool {
 		let mgr = match self.mgr(n) {
 			Some(m) => m,
@@ -1576,6 +1681,7 @@ impl World {
 		let c = self.chans[chan].clone();
 		let peer = if c.a == n { c.b } else { c.a };
 		let pid = self.nodes[peer].node_id;
+		self.note_close_with_inflight(n, chan);
 		match catch(|| {
 			mgr.force_close_broadcasting_latest_txn(&c.channel_id, &pid, "sim force close".to_string())
 		}) {
@@ -1727,7 +1833,7 @@ impl World {
 			}
 			let r = self.chain.admit(&tx, true);
 			self.out.bump(&format!("relay:{}", admit_name(&r)));
-			self.note(&format!("node {} relays {} {} -> {:?}", n, kind, tx.compute_txid(), admit_name(&r)));
+			self.note(&format!("node {} relays {} {} -> {:?}", n, kind, tx.compute_txid(), r));
 			self.oracle_on_broadcast(n, &tx, &kind, &r);
 		}
 		true
@@ -1741,6 +1847,7 @@ impl World {
 		if count > 1 {
 			self.chain.mine_empty(count - 1);
 		}
+		self.resync_wallets();
 		self.clock += 600 * count as u64;
 		self.out.sim_blocks += count as u64;
 		true
@@ -1836,7 +1943,13 @@ impl World {
 		self.clock += 1;
 		simcore_set_now(self.clock);
 		let did = match a {
-			Action::Pump { n } => self.do_pump(*n),
+			// calls with side effects inside the library count as executed even when they
+			// produce nothing observable (replay must repeat them)
+			Action::Pump { n } => {
+				let live = self.nodes[*n].live.is_some();
+				self.do_pump(*n);
+				live
+			},
 			Action::Deliver { from, to } => self.do_deliver(*from, *to),
 			Action::Disconnect { a, b, side } => {
 				if !self.is_conn(*a, *b) && !self.is_conn(*b, *a) {
@@ -1851,7 +1964,11 @@ impl World {
 			Action::Send { from, to, paths, amts, fee_delta_msat, cltv_delta_adj } => {
 				self.do_send(*from, *to, paths, amts, *fee_delta_msat, *cltv_delta_adj)
 			},
-			Action::Drain { n } => self.do_drain(*n),
+			Action::Drain { n } => {
+				let live = self.nodes[*n].live.is_some();
+				self.do_drain(*n);
+				live
+			},
 			Action::Forward { n } => self.do_forward(*n),
 			Action::Tick { n } => self.do_tick(*n),
 			Action::Claim { n, pay } => self.do_claim(*n, *pay),
@@ -1863,14 +1980,25 @@ impl World {
 			Action::AsyncOn { n, chan } => self.do_async_on(*n, *chan),
 			Action::PersistMgr { n } => self.do_persist_mgr(*n),
 			Action::Relay { n } => self.do_relay(*n),
-			Action::Mine { count } => self.do_mine(*count),
+			Action::Mine { count } => {
+				let r = self.do_mine(*count);
+				for n in 0..self.nodes.len() {
+					self.do_sync(n, 0);
+				}
+				r
+			},
 			Action::Sync { n, style } => self.do_sync(*n, *style),
 			Action::Crash { n, pick } => self.do_crash(*n, pick),
 			Action::ArmCrash { n, at, after } => self.do_arm_crash(*n, *at, *after),
 			Action::Restart { n, style } => self.do_restart(*n, *style),
 			Action::Abandon { n, pay } => self.do_abandon(*n, *pay),
+			Action::Sweep { n } => self.do_sweep(*n),
 			Action::Settle => {
 				self.settle();
+				true
+			},
+			Action::Liquidate => {
+				self.liquidate();
 				true
 			},
 		};
@@ -1913,6 +2041,10 @@ impl World {
 	pub fn settle(&mut self) {
 		self.in_settle = true;
 		let n_nodes = self.nodes.len();
+		// faults stop: disarm pending crash points
+		for n in 0..n_nodes {
+			self.nodes[n].disk.lock().unwrap().crash_at = None;
+		}
 		for n in 0..n_nodes {
 			if self.nodes[n].live.is_none() {
 				self.do_restart(n, 0);
